@@ -3,7 +3,9 @@ from .. import tracecmp
 
 PROP = "C13"
 LEVEL = "exploration"
-COMPONENTS = {"real": ["CSVWorkloadReader", "WorkloadTrace", "WorkloadGenerator", "WorkloadTraceGenerator", "CSVWorkloadWriter"],
+COMPONENTS = {"real": ["CSVWorkloadReader", "WorkloadTrace", "WorkloadGenerator", "WorkloadTraceGenerator", "CSVWorkloadWriter",
+                       "eudoxia.__main__.run_command / gentrace_command (cli family: TOML file, trace file, run_simulator with a "
+                       "recording do-nothing scheduler)"],
               "stub": ["files are in-memory StringIO objects; the scheduler/executor are not involved"]}
 RULE_TEXT = ("CMP driver: seeded traces (1..50 pipelines, on/off-grid decimal arrivals, equal arrivals, gaps of millions "
              "of ticks with discrete-event clock jumps, arrivals beyond the end) replayed through the real reader and "
@@ -24,6 +26,8 @@ def make(family, rng, tier):
                                                 "interactive_prob": 0.3, "query_prob": 0.1, "batch_prob": 0.6}}
     if family == "trace":
         return tracecmp.gen_trace(rng, avoid_known=rng.random() < 0.95)
+    if family == "cli":
+        return {"kind": "cli", "params": tracecmp.gen_params(rng), "twice": rng.random() < 0.3}
     if family == "big":
         return tracecmp.gen_bigtrace(rng, tier)
     if family == "grid":
@@ -32,6 +36,8 @@ def make(family, rng, tier):
 
 
 def execute(scn, rng):
+    if scn["kind"] == "cli":
+        return tracecmp.run_cli_roundtrip(scn)
     if scn["kind"] == "roundtrip":
         return tracecmp.run_roundtrip(scn)
     return tracecmp.run_trace(scn)
@@ -40,7 +46,7 @@ def execute(scn, rng):
 def plan(tier):
     q = tier == "quick"
     return [("trace", 6000 if q else 100000), ("grid", 96 if q else 480), ("roundtrip", 400 if q else 8000),
-            ("aimD9a", 8), ("aimD9b", 8), ("big", 8 if q else 64)]
+            ("aimD9a", 8), ("aimD9b", 8), ("big", 8 if q else 64), ("cli", 150 if q else 3000)]
 
 
 def sample(scn, out):
